@@ -531,11 +531,16 @@ func (st *tunnelServerStream) readMsgLocked() (data []byte, ok bool, err error) 
 
 		in, ok := st.receiver.dequeue()
 		if !ok {
-			var err error
 			if halfClosedErr := st.halfClosed.Load(); halfClosedErr != nil {
-				err = halfClosedErr.error
+				return nil, true, halfClosedErr.error
 			}
-			return nil, true, err
+			// The receiver was cancelled before the stream was half-closed,
+			// which happens when the stream's context is done. Never return
+			// a nil error here: the caller would treat it as a message.
+			if err := st.ctx.Err(); err != nil {
+				return nil, true, err
+			}
+			return nil, true, context.Canceled
 		}
 
 		switch in := in.(type) {
